@@ -2255,6 +2255,11 @@ f_objects (void)
 
       tmp[i++] = ob;
     }
+  /* an object that passed the filter may have been destructed by a later call of it */
+  for (j = 0, k = 0; k < i; k++)
+    if (!(tmp[k]->flags & O_DESTRUCTED))
+      tmp[j++] = tmp[k];
+  i = j;
   if (i > CONFIG_INT (__MAX_ARRAY_SIZE__))
     i = CONFIG_INT (__MAX_ARRAY_SIZE__);
   ret = allocate_empty_array (i);
